@@ -198,63 +198,63 @@ Definition str_token (f : fmt) (s : bytes) : token :=
 Definition nlsp (n : nat) : bytes := x0a :: repeat x20 (Nat.min n 128).
 Definition is_container (v : jv) : bool := match v with JArr _ | JObj _ => true | _ => false end.
 
-Section Writers.
-  Variable f : fmt.
-  Variable sty : style.
+(* separator pieces *)
+Definition sp : piece := PWs [x20].
+Definition comma : piece := PWs [x2c].
+Definition is_nil {A} (l : list A) : bool := match l with [] => true | _ => false end.
 
-  (* separator pieces *)
-  Definition sp : piece := PWs [x20].
-  Definition comma : piece := PWs [x2c].
+(* the elements of a non-empty array / the members of a non-empty object; w writes a value one level deeper *)
+Section Items.
+Variables (f : fmt) (sty : style) (d : nat) (w : jv -> list piece).
+Fixpoint arr_items (l : list jv) : list piece :=
+  match l with
+  | [] => []
+  | m :: r =>
+    let last := is_nil r in
+    match f, sty with
+    | FSen, Tight => w m ++ (if last || is_container m then [] else [sp])     (* needSep; the last space becomes ']' *)
+    | FSen, Indent2 => PWs (nlsp (2 * S d)) :: w m
+    | FJson, Tight => w m ++ (if last then [] else [comma])
+    | FJson, Indent2 => PWs (nlsp (2 * S d)) :: w m ++ (if last then [] else [comma])
+    end ++ arr_items r
+  end.
+Fixpoint obj_items (l : list (bytes * jv)) : list piece :=
+  match l with
+  | [] => []
+  | (k, m) :: r =>
+    let last := is_nil r in
+    match f, sty with
+    | FSen, Tight => [PTok (str_token f k); PTok TColon] ++ w m ++ (if last then [] else [sp])
+    | FSen, Indent2 => [PWs (nlsp (2 * S d)); PTok (str_token f k); PTok TColon; sp] ++ w m
+    | FJson, Tight => [PTok (str_token f k); PTok TColon] ++ w m ++ (if last then [] else [comma])
+    | FJson, Indent2 => [PWs (nlsp (2 * S d)); PTok (str_token f k); PTok TColon; sp] ++ w m ++ (if last then [] else [comma])
+    end ++ obj_items r
+  end.
+End Items.
 
-  Fixpoint wr (d : nat) (v : jv) {struct v} : list piece :=
-    match v with
-    | JNull => [PTok (TBare (Bs "null"))]
-    | JBool true => [PTok (TBare (Bs "true"))]
-    | JBool false => [PTok (TBare (Bs "false"))]
-    | JInt z => [PTok (TNum true (print_int z))]
-    | JBig z => [PTok (TNum true (print_int z))]
-    | JDec raw => [PTok (TNum false raw)]
-    | JStr s => [PTok (str_token f s)]
-    | JArr [] => [PTok TLBrack; PTok TRBrack]
-    | JArr l =>
-      PTok TLBrack ::
-      (fix items (l : list jv) : list piece :=
-         match l with
-         | [] => []
-         | m :: r =>
-           let last := match r with [] => true | _ => false end in
-           match f, sty with
-           | FSen, Tight => wr (S d) m ++ (if last || is_container m then [] else [sp])
-           | FSen, Indent2 => PWs (nlsp (2 * S d)) :: wr (S d) m
-           | FJson, Tight => wr (S d) m ++ (if last then [] else [comma])
-           | FJson, Indent2 => PWs (nlsp (2 * S d)) :: wr (S d) m ++ (if last then [] else [comma])
-           end ++ items r
-         end) l ++
-      match sty with Tight => [] | Indent2 => [PWs (nlsp (2 * d))] end ++ [PTok TRBrack]
-    | JObj kvs =>
-      PTok TLBrace ::
-      (fix items (l : list (bytes * jv)) : list piece :=
-         match l with
-         | [] => []
-         | (k, m) :: r =>
-           let last := match r with [] => true | _ => false end in
-           match f, sty with
-           | FSen, Tight => [PTok (str_token f k); PTok TColon] ++ wr (S d) m ++ (if last then [] else [sp])
-           | FSen, Indent2 => [PWs (nlsp (2 * S d)); PTok (str_token f k); PTok TColon; sp] ++ wr (S d) m
-           | FJson, Tight => [PTok (str_token f k); PTok TColon] ++ wr (S d) m ++ (if last then [] else [comma])
-           | FJson, Indent2 =>
-             [PWs (nlsp (2 * S d)); PTok (str_token f k); PTok TColon; sp] ++ wr (S d) m ++ (if last then [] else [comma])
-           end ++ items r
-         end) kvs ++
-      (* closing: SEN indent always breaks the line ("{" is "}"), JSON indent only when not empty *)
-      match sty, f, kvs with
-      | Tight, _, _ => []
-      | Indent2, FSen, _ => [PWs (nlsp (2 * d))]
-      | Indent2, FJson, [] => []
-      | Indent2, FJson, _ => [PWs (nlsp (2 * d))]
-      end ++ [PTok TRBrace]
-    end.
-End Writers.
+Fixpoint wr (f : fmt) (sty : style) (d : nat) (v : jv) {struct v} : list piece :=
+  match v with
+  | JNull => [PTok (TBare (Bs "null"))]
+  | JBool true => [PTok (TBare (Bs "true"))]
+  | JBool false => [PTok (TBare (Bs "false"))]
+  | JInt z => [PTok (TNum true (print_int z))]
+  | JBig z => [PTok (TNum true (print_int z))]
+  | JDec raw => [PTok (TNum false raw)]
+  | JStr s => [PTok (str_token f s)]
+  | JArr [] => [PTok TLBrack; PTok TRBrack]
+  | JArr l =>
+    PTok TLBrack :: arr_items f sty d (wr f sty (S d)) l ++
+    match sty with Tight => [] | Indent2 => [PWs (nlsp (2 * d))] end ++ [PTok TRBrack]
+  | JObj kvs =>
+    PTok TLBrace :: obj_items f sty d (wr f sty (S d)) kvs ++
+    (* closing: SEN indent always breaks the line ("{" is "}"), JSON indent only when not empty *)
+    match sty, f, kvs with
+    | Tight, _, _ => []
+    | Indent2, FSen, _ => [PWs (nlsp (2 * d))]
+    | Indent2, FJson, [] => []
+    | Indent2, FJson, _ => [PWs (nlsp (2 * d))]
+    end ++ [PTok TRBrace]
+  end.
 
 Definition write (f : fmt) (sty : style) (v : jv) : bytes := print f (wr f sty 0 v).
 
@@ -294,14 +294,42 @@ Definition value_step (out : list token) (b : byte) : lstate :=
   else if Byte.eqb b x3a then (LValue, TColon :: out)   (* colonMap after a key; placement is checked by pstep *)
   else (LErr, out).       (* '.', and the unmodelled '+' (e), '/' (c), ')' (p) *)
 
-(* a byte that ends a bare token or a number and is then handled as a delimiter:
-   k l m n are the brackets; white space ends the token and is skipped *)
-Definition after_flush (out : list token) (c : N) : option lstate :=
-  if (c =? K "k")%N then Some (LValue, TLBrack :: out)
-  else if (c =? K "l")%N then Some (LValue, TLBrace :: out)
-  else if (c =? K "m")%N then Some (LValue, TRBrack :: out)
-  else if (c =? K "n")%N then Some (LValue, TRBrace :: out)
+(* a bracket that ends a bare token or a number and is then handled as in value_step *)
+Definition bracket_of (c : N) : option token :=
+  if (c =? K "k")%N then Some TLBrack
+  else if (c =? K "l")%N then Some TLBrace
+  else if (c =? K "m")%N then Some TRBrack
+  else if (c =? K "n")%N then Some TRBrace
   else None.
+
+(* what a byte means while a number is being read (the eight number maps) *)
+Inductive nres := NCont (st : nst) | NTerm | NBracket (t : token) | NBad.
+Definition nstep (ns : nst) (b : byte) : nres :=
+  let c := cls (num_tbl ns) b in
+  if (c =? K "r")%N || (c =? K "s")%N then NTerm
+  else if (c =? K "O")%N then NCont NZero
+  else if (c =? K "-")%N || (c =? K "N")%N then NCont NInt
+  else if (c =? K "t")%N then NCont NDot
+  else if (c =? K "v")%N then NCont NFrac
+  else if (c =? K "w")%N then NCont NExpSign
+  else if (c =? K "x")%N then NCont NExpZero
+  else if (c =? K "y")%N then NCont NExp
+  else match bracket_of c with Some t => NBracket t | None => NBad end.
+(* ... while a bare token is being read (tokenMap) *)
+Inductive bres := BCont | BTerm | BColon | BBracket (t : token) | BBad.
+Definition bstep (b : byte) : bres :=
+  let c := cls tbl_tokenMap b in
+  if (c =? K "u")%N then BCont
+  else if (c =? K "G")%N || (c =? K "J")%N then BTerm
+  else if (c =? K "I")%N then BColon
+  else match bracket_of c with Some t => BBracket t | None => BBad end.   (* '(' , ')' , '/' are not modelled *)
+(* ... inside a quoted string (stringMap) *)
+Inductive sres_ := SPlain | SQuote | SBack | SBad.
+Definition sstep (b : byte) : sres_ :=
+  let c := cls tbl_stringMap b in
+  if (c =? K "R")%N then SPlain else if (c =? K "z")%N then SQuote else if (c =? K "A")%N then SBack else SBad.
+Definition hexval (b : byte) : N :=
+  if (bN b <? 58)%N then (bN b - 48)%N else if (bN b <? 71)%N then (bN b - 55)%N else (bN b - 87)%N.
 
 Definition lstep (st : lstate) (b : byte) : lstate :=
   let '(m, out) := st in
@@ -309,11 +337,12 @@ Definition lstep (st : lstate) (b : byte) : lstate :=
   | LErr => (LErr, out)
   | LValue => value_step out b
   | LStr q acc =>
-    let c := cls tbl_stringMap b in
-    if (c =? K "R")%N then (LStr q (b :: acc), out)
-    else if (c =? K "z")%N then (if Byte.eqb b q then (LValue, TStr (List.rev acc) :: out) else (LStr q (b :: acc), out))
-    else if (c =? K "A")%N then (LEsc q acc, out)
-    else (LErr, out)
+    match sstep b with
+    | SPlain => (LStr q (b :: acc), out)
+    | SQuote => if Byte.eqb b q then (LValue, TStr (List.rev acc) :: out) else (LStr q (b :: acc), out)
+    | SBack => (LEsc q acc, out)
+    | SBad => (LErr, out)
+    end
   | LEsc q acc =>
     let c := cls tbl_escMap b in
     if (c =? K "B")%N then (LStr q (byte_of_code (cls tbl_escByteMap b) :: acc), out)
@@ -321,27 +350,24 @@ Definition lstep (st : lstate) (b : byte) : lstate :=
     else (LErr, out)
   | LU q acc n r =>
     if (cls tbl_uMap b =? K "E")%N then
-      let h := if (bN b <? 58)%N then (bN b - 48)%N else if (bN b <? 71)%N then (bN b - 55)%N else (bN b - 87)%N in
-      let r' := (r * 16 + h)%N in
+      let r' := (r * 16 + hexval b)%N in
       if Nat.eqb n 3 then (LStr q (List.rev (encode_rune r') ++ acc), out) else (LU q acc (S n) r', out)
     else (LErr, out)
   | LBare acc =>
-    let c := cls tbl_tokenMap b in
-    if (c =? K "u")%N then (LBare (b :: acc), out)
-    else if (c =? K "G")%N || (c =? K "J")%N then (LValue, TBare (List.rev acc) :: out)
-    else if (c =? K "I")%N then (LValue, TColon :: TBare (List.rev acc) :: out)
-    else match after_flush (TBare (List.rev acc) :: out) c with Some s => s | None => (LErr, out) end
+    match bstep b with
+    | BCont => (LBare (b :: acc), out)
+    | BTerm => (LValue, TBare (List.rev acc) :: out)
+    | BColon => (LValue, TColon :: TBare (List.rev acc) :: out)
+    | BBracket t => (LValue, t :: TBare (List.rev acc) :: out)
+    | BBad => (LErr, out)
+    end
   | LNum ns acc =>
-    let c := cls (num_tbl ns) b in
-    if (c =? K "r")%N || (c =? K "s")%N then (LValue, TNum (num_isint ns) (List.rev acc) :: out)
-    else if (c =? K "O")%N then (LNum NZero (b :: acc), out)
-    else if (c =? K "-")%N || (c =? K "N")%N then (LNum NInt (b :: acc), out)
-    else if (c =? K "t")%N then (LNum NDot (b :: acc), out)
-    else if (c =? K "v")%N then (LNum NFrac (b :: acc), out)
-    else if (c =? K "w")%N then (LNum NExpSign (b :: acc), out)
-    else if (c =? K "x")%N then (LNum NExpZero (b :: acc), out)
-    else if (c =? K "y")%N then (LNum NExp (b :: acc), out)
-    else match after_flush (TNum (num_isint ns) (List.rev acc) :: out) c with Some s => s | None => (LErr, out) end
+    match nstep ns b with
+    | NCont ns' => (LNum ns' (b :: acc), out)
+    | NTerm => (LValue, TNum (num_isint ns) (List.rev acc) :: out)
+    | NBracket t => (LValue, t :: TNum (num_isint ns) (List.rev acc) :: out)
+    | NBad => (LErr, out)
+    end
   end.
 
 Definition lex_run (st : lstate) (s : bytes) : lstate := fold_left lstep s st.
@@ -442,8 +468,8 @@ Definition pstep (st : pstate) (t : token) : pstate :=
     | TBare s => key_or_value st s (bare_value s)
     | TNum i raw => match num_value i raw with Some v => add_value st v | None => PErr end
     | TColon => match stk with FrObj acc (Some k) false :: r => PS (FrObj acc (Some k) true :: r) res | _ => PErr end
-    | TLBrack => match res with Some _ => PErr | None => PS (FrArr [] :: stk) res end
-    | TLBrace => match res with Some _ => PErr | None => PS (FrObj [] None false :: stk) res end
+    | TLBrack => PS (FrArr [] :: stk) res          (* a second top-level value is refused when it is complete *)
+    | TLBrace => PS (FrObj [] None false :: stk) res
     | TRBrack => match stk with FrArr acc :: r => add_value (PS r res) (JArr (List.rev acc)) | _ => PErr end
     | TRBrace => match stk with FrObj acc None _ :: r => add_value (PS r res) (JObj (List.rev acc)) | _ => PErr end
     end
